@@ -182,6 +182,7 @@ func replayFinding(cfg CheckCfg, r HarnessResult, f Finding, modelPath string) s
 	put(filepath.Join(pkgdir, "zz_verif_rt.go"), []byte(strings.Replace(string(rtsrc), "package PKGNAME", "package "+pkgName, 1)))
 	for _, hf := range l.group.Files {
 		src, _ := os.ReadFile(filepath.Join(verifDir, hf))
+		src = []byte(strings.Replace(string(src), "package PKGNAME", "package "+pkgName, 1))
 		put(filepath.Join(pkgdir, filepath.Base(hf)), src)
 	}
 	// hooks
